@@ -7,7 +7,9 @@ tightening direction); generate_conditions pairs the 'equality' name with the
 equality list, returns (inequality, equality), and compiles each condition in a
 namespace created per call; generate_penalty picks quadratic_inequality exactly
 for conditions named 'inequality' and stacks pf = ptype(condition)(pf) for every
-pair (sum of terms by C15.b).  NOT decided: values of the generated functions.
+pair (sum of terms by C15.b).  Round 3: the iteration-count closures of the two stacked penalty types agree
+with the family reference (shared with C15.a).
+NOT decided: values of the generated functions.
 """
 import ast
 
